@@ -1068,7 +1068,10 @@ class Checker:
                     okm = tag == 0 and ok
                     if okm:
                         md = [((ns, t, float(r)), float(p)) for ns, t, r, p in d[0]]
-                        okm = md == [((k[0], k[1], fl(k[2])), fl(p)) for k, p in nstr["value"]]
+                        gotp = [((k[0], k[1], fl(k[2])), fl(p)) for k, p in nstr["value"]]
+                        if md != gotp and sorted(md) == sorted(gotp):
+                            self.bump("key_order_drift")          # same mapping, other key order: not part of the property
+                        okm = sorted(md) == sorted(gotp)
                         okm = okm and self.close_dist([((ns, t), float(p)) for ns, t, p in d[1]], [((k[0], k[1]), fl(p)) for k, p in qres["nst"]["value"]], 1e-12)
                         okm = okm and self.close_dist([(ns, float(p)) for ns, p in d[2]], [(k, fl(p)) for k, p in qres["ns"]["value"]], 1e-12)
                         okm = okm and abs(float(d[3]) - fl(qres["ecr"]["value"])) <= 1e-9
@@ -1153,12 +1156,27 @@ class Checker:
                 if okm:
                     md = [((ns, t, r), p) for ns, t, r, p in d[0]]
                     got = [((k[0], k[1], vlib.frac(k[2])), vlib.frac(p)) for k, p in nstr["value"]]
+                    # outcome distributions are compared as MAPPINGS (the property fixes keys and probabilities, not the key order);
+                    # a different order is counted as drift
                     if exact:
-                        # same keys in the same (first-occurrence) order, probabilities = nearest doubles of c/n
-                        okm = [k for k, _ in md] == [k for k, _ in got] and [float(p) for _, p in md] == [float(p) for _, p in got]
+                        dm, dg = dict(md), dict(got)
+                        okm = len(dm) == len(md) and len(dg) == len(got) and set(dm) == set(dg) and \
+                            all(float(dm[k]) == float(dg[k]) for k in dm)
+                        if okm and [k for k, _ in md] != [k for k, _ in got]:
+                            self.bump("key_order_drift")
                     else:
-                        okm = len(md) == len(got) and all(a[0][:2] == b[0][:2] and abs(float(a[0][2]) - float(b[0][2])) <= 1e-9
-                                                          and float(a[1]) == float(b[1]) for a, b in zip(md, got))
+                        # keys carry a rounded cumulative reward: match them one-to-one within the 1e-9 slack
+                        rest = list(got)
+                        okm = len(md) == len(got)
+                        for (k, p_) in md:
+                            hit = [i for i, (k2, p2) in enumerate(rest) if k2[:2] == k[:2] and abs(float(k2[2]) - float(k[2])) <= 1e-9
+                                   and float(p2) == float(p_)]
+                            if not hit:
+                                okm = False
+                                break
+                            rest.pop(hit[0])
+                        if okm and any(a[0][:2] != b[0][:2] or abs(float(a[0][2]) - float(b[0][2])) > 1e-9 for a, b in zip(md, got)):
+                            self.bump("key_order_drift")
                     okm = okm and d[4] == 1
                     okm = okm and self.close_dist([((ns, t), float(p)) for ns, t, p in d[1]], [((k[0], k[1]), fl(p)) for k, p in qres["nst"]["value"]], 1e-12)
                     okm = okm and self.close_dist([(ns, float(p)) for ns, p in d[2]], [(k, fl(p)) for k, p in qres["ns"]["value"]], 1e-12)
@@ -1168,7 +1186,9 @@ class Checker:
 
     @staticmethod
     def close_dist(a, b, tol):
-        return len(a) == len(b) and all(x[0] == y[0] and abs(x[1] - y[1]) <= tol for x, y in zip(a, b))
+        """two finite distributions as MAPPINGS key -> probability (key order is not compared), probabilities within tol"""
+        da, db = dict(a), dict(b)
+        return len(da) == len(a) and len(db) == len(b) and set(da) == set(db) and all(abs(da[k] - db[k]) <= tol for k in da)
 
     @staticmethod
     def compare_outcome(emp, n, got, tol):
